@@ -43,5 +43,30 @@ PROPS["C10"] = dict(
     assumptions=["system libogg 1.3.5 is correct"],
 )
 
+_SEEK_COMMON = dict(
+    engine="rc", engine_name="rc-tape", level="exploration", tape_scale=6,
+    quick=dict(cases=250), thorough=dict(cases=5000),
+    assumptions=["system libogg 1.3.5 is correct", "ground truth = standalone packet-level decode of each link"],
+)
+PROPS["C07"] = dict(_SEEK_COMMON, sources=["props/c07.cpp"], design_ref="3.8",
+    technique="stateful property-based testing (rapidcheck tapes): generated seek/read histories against a position model, audio compared bit-exactly with an uninterrupted decode",
+    level_text="Generated histories (1..24 calls of ov_raw_seek / ov_pcm_seek / ov_pcm_seek_page / ov_time_seek / ov_time_seek_page / ov_read_float / ov_read / read-to-end / reopen) "
+               "on generated chained files; after every successful seek the reported position is taken as claimed and every later read must be bit-identical to the linear decode at that position, "
+               "with the right link index and tell advancing by exactly the samples returned.",
+    level_note="Trusted: system libogg, harness pager, packet-level decode as ground truth. Links come from the bundled encoder (block sizes 256..4096).",
+    rule="case = chain (1..4 links) + op history with targets biased to page/packet/link boundaries +-1; non-trivial = a successful seek followed by a data-returning read on a handle that had already "
+         "performed another call; distinct by hash of (chain, history)",
+    require_labels=["op raw_seek", "op pcm_seek", "op pcm_seek_page", "op time_seek", "op time_seek_page", "chained with seek", "raw seek inside last page of a link", "op read-to-end"],
+)
+PROPS["C08"] = dict(_SEEK_COMMON, sources=["props/c08.cpp"], design_ref="3.9",
+    technique="stateful property-based testing (rapidcheck tapes): generated seek histories, oracle on return codes and landing position from a page-table model",
+    level_text="Same generated histories as C07; oracle: ov_pcm_seek(p) returns 0 and tell==p for 0<=p<=L, ov_time_seek lands within one sample, page seeks land in [last page boundary strictly before target, target], "
+               "seek to L then read gives EOF, out-of-range arguments are refused and leave tell and the next read (bit-exact) undisturbed.",
+    level_note="Trusted: system libogg, harness pager and its page table (page boundaries), packet-level decode as ground truth.",
+    rule="case = chain (1..4 links) + op history with targets biased to page/packet/link boundaries +-1, 0 and L; non-trivial = a successful seek followed by a data-returning read with >= 2 calls made; "
+         "distinct by hash of (chain, history)",
+    require_labels=["op pcm_seek", "op pcm_seek_page", "op time_seek", "op time_seek_page", "op out-of-range seek", "seek to L then EOF", "chained with seek"],
+)
+
 NOT_APPLICABLE = {}
 HOOK_COMMITS = []
